@@ -328,7 +328,7 @@ theorem dropAndSend_logon_out (g0 : G8) (s : Sess) (m : OutMsg) (hk : m.kind = "
 def connPre (s : Sess) : Sess :=
   let s := s.openConn
   let s := if s.cfg.refreshOnLogon then s.emit .refresh else s
-  if s.cfg.resetOnLogon then s.storeReset else s
+  if s.cfg.resetOnLogon then dropAndReset s else s
 
 theorem connect_already (s : Sess) (h : s.st.connected = true) : connect s = (s, "already") := by
   unfold connect; simp [h]
@@ -378,7 +378,8 @@ theorem SK_connect (g : G8) (s : Sess) (hlog : s.log = []) (hS : S g s) :
                   noconn := (fun h => by cases h) }, fun _ _ => rfl⟩
       · rw [connect_initiator s hc hst hini]
         generalize hx : connPre s = x
-        have hxs : Sil s.openConn x := by
+        -- (after fix 8dffd53 the ResetOnLogon reset at connect also drops the queue: not silent, but invisible to the automaton)
+        have hxs : x.out = true ∧ ∀ g0 : G8, g8Of g0 x = g8Of g0 s.openConn := by
           rw [← hx]
           unfold connPre
           dsimp only
@@ -388,15 +389,19 @@ theorem SK_connect (g : G8) (s : Sess) (hlog : s.log = []) (hS : S g s) :
             · exact Sil.refl _
           generalize (if s.openConn.cfg.refreshOnLogon = true then s.openConn.emit Obs.refresh else s.openConn) = y at h1 ⊢
           split
-          · exact h1.trans (sil_storeReset _)
-          · exact h1
-        have hxo : x.out = true := by rw [hxs.fr.out]; rfl
+          · refine ⟨by show y.out = true; rw [h1.fr.out]; rfl, fun g0 => ?_⟩
+            have : g8Of g0 (dropAndReset y) = g8Of g0 y := by
+              show g8Of g0 ((y.setToSend []).storeReset) = g8Of g0 y
+              rw [(sil_storeReset _).g8 g0]; rfl
+            rw [this, h1.g8]
+          · exact ⟨by rw [h1.fr.out]; rfl, fun g0 => h1.g8 g0⟩
+        have hxo : x.out = true := hxs.1
         obtain ⟨m', hk, fr, hq, hgd⟩ := dropAndSend_logon_out (c8Step g .connected) x (logonMsg x (shouldSendReset x)) rfl hxo
         show SK (c8Step g .connected) ((sendLogonInReplyTo x (shouldSendReset x)).setSt .logon)
         unfold SK
         rw [g8Of_setSt]
         unfold sendLogonInReplyTo
-        rw [hgd, hxs.g8]
+        rw [hgd, hxs.2]
         have : g8Of (c8Step g .connected) s.openConn = c8Step g .connected := by
           unfold g8Of; show (List.foldl c8o _ s.log.reverse) = _; rw [hlog]; rfl
         rw [this, c8o_wire, c8Step_connected]
